@@ -1,0 +1,54 @@
+//go:build verif
+
+package raftconn
+
+// Accessors used by the verification harness (/verif), property C05: drive a RaftNode with a
+// logical clock instead of the 400 ms wall-clock ticker, run the periodic entry-log truncation
+// on demand instead of once a minute, and read the node's private progress counters.
+// Nothing here is compiled without the `verif` build tag.
+
+import (
+	"time"
+
+	"go.etcd.io/etcd/raft/v3"
+)
+
+// VerifSetTick replaces the ticker of serveChannels by a channel the caller feeds (one value =
+// one raft tick). Must be called before InitAndStartNode.
+func (n *RaftNode) VerifSetTick(c <-chan time.Time) {
+	if n.tick != nil {
+		n.tick.Stop()
+	}
+	n.tick = &time.Ticker{C: c}
+}
+
+// VerifAppliedIndex is the appliedIndex of serveChannels (read it only while the node is quiet).
+func (n *RaftNode) VerifAppliedIndex() uint64 { return n.appliedIndex }
+
+// VerifStatus is raft.Node.Status (zero value before the raft node exists).
+func (n *RaftNode) VerifStatus() raft.Status {
+	if n.node == nil {
+		return raft.Status{}
+	}
+	return n.node.Status()
+}
+
+// VerifDeleteEntryLog runs one round of the minute ticker's first half (deleteEntryLog).
+func (n *RaftNode) VerifDeleteEntryLog() error { return n.deleteEntryLog() }
+
+// VerifDeleteEntryLogBySize runs one round of the minute ticker's second half.
+func (n *RaftNode) VerifDeleteEntryLogBySize() error { return n.deleteEntryLogBySize() }
+
+// VerifSetTolerateStart sets the instant (UnixNano) at which the node first saw an unhealthy
+// replica group; 0 = not seen yet.
+func (n *RaftNode) VerifSetTolerateStart(v int64) { n.tolerateStartTime.Store(v) }
+
+// VerifSnapShot runs what snapshotAfterFlush runs for one flush signal.
+func (n *RaftNode) VerifSnapShot() error { return n.snapShot() }
+
+// VerifPending is the number of writers waiting for their proposal.
+func (n *RaftNode) VerifPending() int {
+	n.dataCommittedMu.RLock()
+	defer n.dataCommittedMu.RUnlock()
+	return len(n.DataCommittedC)
+}
